@@ -559,9 +559,27 @@ theorem unf_sound (p : Prog Cls) :
       · exact absurd hu (by simp)
     · exact absurd hu (by simp)
 
+/-- Number of lock events of the default unfolding started with no lock held (0 if there
+is none). -/
+def unfSize (p : Prog Cls) : Nat :=
+  match unf p [] with
+  | some (_, f) => (f .done).size
+  | none => 0
+
+theorem unfolds_of_unfSize {p : Prog Cls} (h : 0 < unfSize p) :
+    ∃ h' c, Unfolds Lock.cls [] p h' .done c ∧ c ≠ .done := by
+  unfold unfSize at h
+  split at h
+  · rename_i h' f hu
+    refine ⟨h', f .done, unf_sound p _ _ _ hu _, ?_⟩
+    intro hd
+    rw [hd] at h
+    simp [Code.size] at h
+  · omega
+
 /-! ## The table of `sync::Cache` -/
 
-/-- The decidable check of the table (kernel-evaluated, no `native_decide`). -/
+/-- The decidable check of the table, evaluated by the kernel (`decide`). -/
 theorem tableOk_true : tableOk = true := by decide
 
 theorem check_table (o : Op) : check Cls.rank (table o) [] = some [] := by
